@@ -18,6 +18,50 @@ fn fixed_state() -> std::hash::RandomState {
     unsafe { std::mem::transmute::<[u64; 2], std::hash::RandomState>([1, 2]) }
 }
 
+/// Association-list model of `Kwargs::get` (the real one is an `Arc<HashMap>` lookup): a non-empty
+/// HashMap dropped inside the callee, plus the SipHash loops, need an unwinding bound under which
+/// the (infeasible) recursive drop glue of `Value` does not finish.  The conversion of the stored
+/// Value to the requested type is the real `ArgFromValue::from_value`.
+static mut KW0: Option<(&'static str, &'static Value)> = None;
+static mut KW1: Option<(&'static str, &'static Value)> = None;
+
+/// loop-free; enough to tell apart the keys the harness stored from any other key
+fn key_is(a: &str, b: &str) -> bool {
+    let (a, b) = (a.as_bytes(), b.as_bytes());
+    a.len() == b.len() && a.len() > 1 && a[0] == b[0] && a[1] == b[1] && a[a.len() - 1] == b[b.len() - 1]
+}
+
+fn kwargs_get_model<'k, T>(_kw: &'k Kwargs, key: &'k str) -> TeraResult<Option<T>>
+where
+    T: ArgFromValue<'k, Output = T>,
+{
+    let (s0, s1) = unsafe { (KW0, KW1) };
+    if let Some((k, v)) = s0 {
+        if key_is(k, key) {
+            return T::from_value(v).map(|x| Some(x));
+        }
+    }
+    if let Some((k, v)) = s1 {
+        if key_is(k, key) {
+            return T::from_value(v).map(|x| Some(x));
+        }
+    }
+    Ok(None)
+}
+
+fn set_kwargs(a: (&'static str, Value), b: Option<(&'static str, Value)>) {
+    let va: &'static Value = Box::leak(Box::new(a.1));
+    unsafe {
+        KW0 = Some((a.0, va));
+    }
+    if let Some((k, v)) = b {
+        let vb: &'static Value = Box::leak(Box::new(v));
+        unsafe {
+            KW1 = Some((k, vb));
+        }
+    }
+}
+
 /// Exact order of a non-NaN f64 `x` against the integer (-1)^neg * mag, from the IEEE bit pattern
 /// with integer shifts only (same oracle as kani/numcmp.rs; NaN => Greater, never Equal).
 fn exact_f64_int(x: f64, neg: bool, mag: u128) -> Ordering {
@@ -358,14 +402,16 @@ macro_rules! for_each_scalar {
 
 // killed by: `ValueKind::Undefined | ValueKind::None => Ok(default_val)`; `_ => Ok(default_val)`
 #[kani::proof]
-#[kani::unwind(9)]
+#[kani::unwind(2)]
 #[kani::stub(std::hash::RandomState::new, fixed_state)]
+#[kani::stub(crate::args::Kwargs::get, kwargs_get_model)]
 fn default_replaces_only_undefined() {
     let ctx = Context::new();
     let st = State::new(&ctx);
     let m: u64 = kani::any();
     let marker = Value::from(m);
-    let kw = Kwargs::from([("value", Value::from(m))]);
+    set_kwargs(("value", Value::from(m)), None);
+    let kw = Kwargs::default();
     macro_rules! go {
         ($v:expr, $undef:expr, $truthy:expr) => {{
             let v: Value = $v;
@@ -382,14 +428,16 @@ fn default_replaces_only_undefined() {
 
 // killed by: `if val.is_truthy() { Ok(default_val) } else { Ok(val) }`; ignoring `boolean`
 #[kani::proof]
-#[kani::unwind(9)]
+#[kani::unwind(2)]
 #[kani::stub(std::hash::RandomState::new, fixed_state)]
+#[kani::stub(crate::args::Kwargs::get, kwargs_get_model)]
 fn default_boolean_replaces_falsy() {
     let ctx = Context::new();
     let st = State::new(&ctx);
     let m: u64 = kani::any();
     let marker = Value::from(m);
-    let kw = Kwargs::from([("value", Value::from(m)), ("boolean", Value::from(true))]);
+    set_kwargs(("value", Value::from(m)), Some(("boolean", Value::from(true))));
+    let kw = Kwargs::default();
     macro_rules! go {
         ($v:expr, $undef:expr, $truthy:expr) => {{
             let v: Value = $v;
@@ -406,14 +454,16 @@ fn default_boolean_replaces_falsy() {
 
 // killed by: `let boolean = kwargs.get::<bool>("boolean")?.is_some()`
 #[kani::proof]
-#[kani::unwind(9)]
+#[kani::unwind(2)]
 #[kani::stub(std::hash::RandomState::new, fixed_state)]
+#[kani::stub(crate::args::Kwargs::get, kwargs_get_model)]
 fn default_boolean_false_is_plain() {
     let ctx = Context::new();
     let st = State::new(&ctx);
     let m: u64 = kani::any();
     let marker = Value::from(m);
-    let kw = Kwargs::from([("value", Value::from(m)), ("boolean", Value::from(false))]);
+    set_kwargs(("value", Value::from(m)), Some(("boolean", Value::from(false))));
+    let kw = Kwargs::default();
     macro_rules! go {
         ($v:expr, $undef:expr, $truthy:expr) => {{
             let v: Value = $v;
